@@ -85,6 +85,8 @@ template <typename T> struct Ad<PPL::BD_Shape<T> > {
     return c;
   }
   static X* clone(const X& s) { X* c = new X(0); c->dbm = s.dbm; c->status = s.status; c->redundancy_dbm = s.redundancy_dbm; return c; }
+  // same matrix and same empty flag => same gamma (cheap shortcut that avoids re-reading the value)
+  static bool same_repr(const X& a, const X& b) { return a.status.test_empty() == b.status.test_empty() && a.dbm.num_rows() == b.dbm.num_rows() && a.dbm == b.dbm; }
   static std::string sig(const X& s) {
     std::string r; r += s.status.test_empty() ? 'E' : '-'; r += s.status.test_zero_dim_univ() ? 'Z' : '-';
     r += s.status.test_shortest_path_closed() ? 'C' : '-'; r += s.status.test_shortest_path_reduced() ? 'R' : '-'; return r;
@@ -116,6 +118,7 @@ template <typename T> struct Ad<PPL::Octagonal_Shape<T> > {
     return c;
   }
   static X* clone(const X& s) { X* c = new X(0); c->matrix = s.matrix; c->space_dim = s.space_dim; c->status = s.status; return c; }
+  static bool same_repr(const X& a, const X& b) { return a.status.test_empty() == b.status.test_empty() && a.space_dim == b.space_dim && a.matrix == b.matrix; }
   static std::string sig(const X& s) {
     std::string r; r += s.status.test_empty() ? 'E' : '-'; r += s.status.test_zero_dim_univ() ? 'Z' : '-';
     r += s.status.test_strongly_closed() ? 'C' : '-'; return r;
@@ -146,6 +149,18 @@ template <typename ITV> struct Ad<PPL::Box<ITV> > {
     return c;
   }
   static X* clone(const X& s) { X* c = new X(0); c->seq = s.seq; c->status = s.status; return c; }
+  static bool same_repr(const X& a, const X& b) {
+    if ((a.status.test_empty_up_to_date() && a.status.test_empty()) != (b.status.test_empty_up_to_date() && b.status.test_empty())) return false;
+    if (a.seq.size() != b.seq.size()) return false;
+    for (size_t k = 0; k < a.seq.size(); ++k) {
+      const ITV& x = a.seq[k]; const ITV& y = b.seq[k];
+      bool xl = x.lower_is_boundary_infinity(), yl = y.lower_is_boundary_infinity(), xu = x.upper_is_boundary_infinity(), yu = y.upper_is_boundary_infinity();
+      if (xl != yl || xu != yu) return false;
+      if (!xl && (!(x.lower() == y.lower()) || x.lower_is_open() != y.lower_is_open())) return false;
+      if (!xu && (!(x.upper() == y.upper()) || x.upper_is_open() != y.upper_is_open())) return false;
+    }
+    return true;
+  }
   static std::string sig(const X& s) {
     std::string r; r += s.status.test_empty_up_to_date() ? 'U' : '-'; r += s.status.test_empty() ? 'E' : '-';
     r += s.status.test_universe() ? 'V' : '-'; return r;
